@@ -129,6 +129,16 @@ def auto_job(job):
     try:
         with warnings.catch_warnings():
             warnings.simplefilter('ignore')
+            if job.get('first') is not None:
+                # another model is exported first, in the same process (same variable names, other order and values)
+                try:
+                    build_python(job['first']).get_run_func('vf', step_size=0.25, backend='fortran', vectorize=False,
+                                                            verbose=False, float_precision='float64', solver='scipy',
+                                                            auto=True, file_name='first_export')
+                except Exception:   # noqa
+                    pass
+                for f_ in glob.glob('c.*') + glob.glob('first_export*'):
+                    os.remove(f_)
             try:
                 func, args, keys, smap = ct.get_run_func('vf', step_size=0.25, backend='fortran', vectorize=False,
                                                          verbose=False, float_precision='float64', solver='scipy',
@@ -402,6 +412,9 @@ def run(tier='quick', seed=0, only=None, verbose=False):
                 bcs, ics = [b.replace('_z', '_x') for b in bcs], [i_.replace('_z', '_x') for i_ in ics]
             jobs.append(dict(key=k + '|bvp', spec=s, kw=dict(auto_constants=('bvp',), boundary_conditions=bcs,
                                                             integral_constraints=ics)))
+    # two exports in one process: the second one must not inherit anything from the first
+    for (k1, s1), (k2, s2) in ((progs[1], progs[0]), (progs[2], progs[3])) if len(progs) >= 4 else ():
+        jobs.append(dict(key=f"{k2}|after-export-of:{k1}", spec=s2, first=s1))
     if only:
         jobs = [j for j in jobs if only in j['key']]
     for job, outc in runner.run_jobs(auto_job, jobs, timeout=600):
